@@ -642,6 +642,56 @@ def r16_15(run, model):
                        "renaming traits.gom to area.gom makes the package valid")
 
 
+def r16_17(run, model):
+    run.rule("R16.17", "a refused package is a reported package: every place of name resolution that tests `!package_allowed(..)` (or "
+                       "`!imports.contains(..)`) and gives the construct up on failure reports the missing import there - the other "
+                       "resolutions of the same path see a form they do not understand and stay silent or say something else")
+    n = 0
+    for f in model.fns(NR):
+        if f.body is None:
+            continue
+        seq = 0
+        for iff in S.find(f.body, "If"):
+            txt = S.norm_ws(run.facts.text(NR, iff["cond"]["sp"]))
+            if not re.search(r"!\s*(\w+\.)*(package_allowed\(|imports\.contains\()", txt):
+                continue
+            n += 1
+            seq += 1
+            ok = reports_error(iff["then"])
+            run.ob("R16.17", f"{f.name}|import test #{seq} reports its failure", ok, site(NR, iff["sp"]),
+                   f"condition `{txt[:60]}`; the branch taken on failure {'reports' if ok else 'does not report'} an error",
+                   witness="let c = Palette::Color::Red in a file that does not import Palette: the diagnostic names an unresolved constructor, "
+                           "not the missing import (or nothing is said and the name is resolved through a sibling file's import)")
+    run.floor("import tests in name resolution", n, 8)
+
+
+def r16_18(run, model):
+    run.rule("R16.18", "an implementation is filed under the trait's resolved name: in the function that writes the trait-impl table, once "
+                       "resolve_trait_name has answered, the spelling that was handed to it is not used again - a key built from the unresolved "
+                       "spelling lets `impl Show for P` and `impl Lib::Show for P` (or the same impl in two files) coexist and hides the impl "
+                       "from every lookup that uses the resolved name")
+    TOP = "crates/compiler/src/typer/toplevel.rs"
+    n = 0
+    for f in model.fns(TOP):
+        if f.body is None or not re.search(r"trait_impls\s*\.\s*insert\(", S.norm_ws(run.facts.text(TOP, f.body["sp"]))):
+            continue
+        for l in S.find(f.body, "Local"):
+            if l.get("init") is None:
+                continue
+            cs = [c for c in S.calls(l["init"], "resolve_trait_name")]
+            if not cs or not cs[0]["args"]:
+                continue
+            raw = S.idents(cs[0]["args"][-1])
+            n += 1
+            end = (l["sp"][2], l["sp"][3])
+            later = [x for x in S.walk(f.body) if x["k"] == "Path" and len(x.get("segs", [])) == 1 and x["segs"][0] in raw and (x["sp"][0], x["sp"][1]) > end]
+            run.ob("R16.18", f"{f.name}|the unresolved trait spelling is not used after resolution", not later, site(TOP, (later[0] if later else l)["sp"]),
+                   f"`{sorted(raw)}` is used {len(later)} time(s) after resolve_trait_name answered",
+                   witness="impl Show for P {..} twice, once written `Show` and once `Main::Show`: no `already defined` diagnostic; method "
+                           "lookup by the resolved name does not find the impl filed under the raw one")
+    run.floor("trait-impl writers that resolve the trait name", n, 1)
+
+
 def r16_16(run, model):
     run.rule("R16.16", "a trait bound names a trait through the file's own imports: wherever name resolution copies the segments of a "
                        "user-written path into a hir::Path (the bounds of a generic function), the same block tests the path's package with "
@@ -684,6 +734,8 @@ def run(run, model):
     run.try_rule(r16_14, model)
     run.try_rule(r16_15, model)
     run.try_rule(r16_16, model)
+    run.try_rule(r16_17, model)
+    run.try_rule(r16_18, model)
     # a stale dependant names items its dependency no longer exports: the pinned-hash comparison is how link reports that (shared with C15 R15.4)
     from rules import c15 as _c15
     run.try_rule(_c15.r15_4, model)
